@@ -10,6 +10,13 @@
       `none` (= fuel-exhausted) for **every** fuel (`tick_loop_stuck_float`), the Rust loop does not terminate;
     * hence whenever the model yields a list (`spanTickDists p fuel = some ds`), the list is **strictly** increasing in
       IEEE `<`: `tick_dist = d₁ < d₂ < … < len − min_dist`, `d_{i+1} = d_i + tick_dist`.
+  Part 2 (`ticks_chronological_float`). Division by a positive number, multiplication by a non-negative number, addition
+  of a fixed number and `1 − ·` are monotone *after rounding* (Lemmas/FloatRoundMono.lean, Lemmas/FloatArithMono.lean), so
+  the tick times `span_start + (d / len) · span_duration` (forward) and `span_start + (1 − d / len) · span_duration`
+  (reversed) are non-decreasing in stream order within every span, as long as they are numbers. Strictness is lost (ticks
+  can share a time), and **across spans the IEEE stream need not be chronological**: the repeat that ends span `s` is at
+  `(start + s·dur) + dur`, the next span starts at `start + (s+1)·dur`, and these two roundings can differ by an ulp in the
+  wrong direction (`stream_not_chronological_float_witness`).
   Part 3: positivity, the clamps of `SliderEventsIter::new` (`len ≤ 100000`, `tick_dist ≤ len`), no ticks for a zero /
   negative / NaN tick distance, identical placement on every span.
 -/
@@ -195,6 +202,79 @@ theorem tick_loop_stuck_float (p : Params Float) (d : Float)
     ∀ fuel, tickDists p fuel d = none :=
   tickDists_stuck_ieee tickLawsIeee_float p d ht hd hfix h1 h2
 
+/-! ## Part 2 — tick times within a span -/
+
+/-- the time of the tick at distance `d` in span `s`. -/
+theorem tickEvent_time (p : Params Float) (s : Int) (d : Float) :
+    (tickEvent p s d).time =
+      spanStart p s + (if isReversed s then (1 : Float) - d / p.len else d / p.len) * p.spanDuration := by
+  unfold tickEvent mkTick
+  by_cases hr : isReversed s = true <;> simp [hr]
+
+/-- **tick times are monotone in the tick distance**, binary64: for `0 < len`, `0 ≤ span_duration` and tick distances
+`a ≤ b` whose tick times are numbers, the tick of `a` is not later than the tick of `b` on a forward span and not
+earlier on a reversed span — each of the three roundings (`/ len`, `· span_duration`, `span_start + ·`, and
+`1 − ·` on reversed spans) is monotone. -/
+theorem tickEvent_time_mono_float (p : Params Float) (s : Int) (a b : Float)
+    (hlen : Scalar.lt (0 : Float) p.len = true) (hdur : Scalar.le (0 : Float) p.spanDuration = true)
+    (hab : Scalar.le a b = true)
+    (hna : Scalar.isNaN (tickEvent p s a).time = false) (hnb : Scalar.isNaN (tickEvent p s b).time = false) :
+    if isReversed s then Scalar.le (tickEvent p s b).time (tickEvent p s a).time = true
+    else Scalar.le (tickEvent p s a).time (tickEvent p s b).time = true := by
+  rw [tickEvent_time] at hna hnb ⊢
+  rw [tickEvent_time]
+  by_cases hr : isReversed s = true
+  · simp only [hr, if_true] at hna hnb ⊢
+    have ma := (FAM.not_nan_of_add_float _ _ hna).2
+    have mb := (FAM.not_nan_of_add_float _ _ hnb).2
+    have sa := (FAM.not_nan_of_mul_float _ _ ma).1
+    have sb := (FAM.not_nan_of_mul_float _ _ mb).1
+    have da := (FAM.not_nan_of_sub_float _ _ sa).2
+    have db := (FAM.not_nan_of_sub_float _ _ sb).2
+    have h1 := FAM.div_le_div_right_float a b p.len hab hlen da db
+    have h2 := FAM.sub_le_sub_left_float (1 : Float) _ _ (by decide +kernel) h1 sa sb
+    have h3 := FAM.mul_le_mul_right_float _ _ p.spanDuration h2 hdur mb ma
+    exact FAM.add_le_add_left_float (spanStart p s) _ _ h3 hnb hna
+  · simp only [hr, Bool.false_eq_true, if_false] at hna hnb ⊢
+    have ma := (FAM.not_nan_of_add_float _ _ hna).2
+    have mb := (FAM.not_nan_of_add_float _ _ hnb).2
+    have da := (FAM.not_nan_of_mul_float _ _ ma).1
+    have db := (FAM.not_nan_of_mul_float _ _ mb).1
+    have h1 := FAM.div_le_div_right_float a b p.len hab hlen da db
+    have h3 := FAM.mul_le_mul_right_float _ _ p.spanDuration h1 hdur ma mb
+    exact FAM.add_le_add_left_float (spanStart p s) _ _ h3 hna hnb
+
+/-- **ticks_chronological_float**: in IEEE binary64, for `0 ≤ span_duration`, the ticks of every span — forward or
+reversed — come in non-decreasing time, provided their times are numbers (no `∞ − ∞`, `0 · ∞` in
+`span_start + progress · span_duration`). Strictness is lost to rounding: two ticks may get the same time. -/
+theorem ticks_chronological_float (p : Params Float) (fuel : Nat) (ds : List Float)
+    (h : spanTickDists p fuel = some ds) (hdur : Scalar.le (0 : Float) p.spanDuration = true) (s : Int)
+    (hn : ∀ d ∈ ds, Scalar.isNaN (tickEvent p s d).time = false) :
+    (spanTicks p ds s).Pairwise (fun a b => Scalar.le a.time b.time = true) := by
+  obtain ⟨hinc, hall, _, _⟩ := span_tick_dists_increasing_float p fuel ds h
+  have hlen : ∀ d ∈ ds, Scalar.lt (0 : Float) p.len = true := fun d hd =>
+    FMO.lt_of_lt_of_le _ _ _ (hall d hd).2.1 (hall d hd).2.2.2.1
+  have hle : ds.Pairwise (fun a b => Scalar.le a b = true) := hinc.imp (fun h => FMO.le_of_lt _ _ h)
+  rw [spanTicks_eq]
+  by_cases hr : isReversed s = true
+  · simp only [hr, if_true]
+    rw [List.pairwise_map]
+    have hrev : ds.reverse.Pairwise (fun a b => Scalar.le b a = true) := List.pairwise_reverse.mpr hle
+    refine List.Pairwise.imp_of_mem ?_ hrev
+    intro a b ha hb hba
+    have ha' := List.mem_reverse.mp ha
+    have hb' := List.mem_reverse.mp hb
+    have := tickEvent_time_mono_float p s b a (hlen a ha') hdur hba (hn b hb') (hn a ha')
+    rw [hr] at this
+    exact this
+  · simp only [hr, Bool.false_eq_true, if_false]
+    rw [List.pairwise_map]
+    refine List.Pairwise.imp_of_mem ?_ hle
+    intro a b ha hb hab
+    have := tickEvent_time_mono_float p s a b (hlen a ha) hdur hab (hn a ha) (hn b hb)
+    simp only [hr, Bool.false_eq_true, if_false] at this
+    exact this
+
 /-! ## Part 3 — the clamps of `SliderEventsIter::new`, positivity, zero tick distance, every span alike -/
 
 section Clamps
@@ -366,6 +446,25 @@ example : (collect 5 11 (⟨exF, [], .head⟩ : Iter Float)).map (·.map fun e =
           (.tick, 0, (900 : Float).toBits), (.repeatPt, 0, (1000 : Float).toBits), (.tick, 1, (1100 : Float).toBits),
           (.tick, 1, (1400 : Float).toBits), (.tick, 1, (1700 : Float).toBits), (.lastTick, 1, (1964 : Float).toBits),
           (.tail, 1, (2000 : Float).toBits)] := by decide +kernel
+
+/-- hypotheses of `ticks_chronological_float` on the unit test (forward span 0, reversed span 1). -/
+example : Scalar.le (0 : Float) exF.spanDuration = true ∧
+    (∀ d ∈ [(300 : Float), 600, 900], Scalar.isNaN (tickEvent exF 0 d).time = false) ∧
+    (∀ d ∈ [(300 : Float), 600, 900], Scalar.isNaN (tickEvent exF 1 d).time = false) := by decide +kernel
+
+/-- strictness is lost in binary64: at `start_time = 1e20` (ulp 16384) all three ticks of a 1000 ms span share one time —
+the strict `ticks_chronological` of Props/C20.lean (exact arithmetic) is false of the running code. -/
+example : (spanTicks { exF with startTime := 1e20 } [300, 600, 900] 0).map (·.time.toBits) =
+    [(1e20 : Float).toBits, (1e20 : Float).toBits, (1e20 : Float).toBits] := by decide +kernel
+
+/-- **across spans the binary64 stream need not be chronological.** `new(0.3, 333.3, velocity, 1e-14, 100, 3 spans)`:
+the repeat ending span 1 is at `(0.3 + 1·333.3) + 333.3 = 666.9000000000001`, span 2 starts at
+`0.3 + 2·333.3 = 666.9`, one ulp earlier, and its first tick (progress `1e-16`) is absorbed into that start time: the
+event after the repeat is earlier than the repeat. (Inside each span the order holds, `ticks_chronological_float`.) -/
+theorem stream_not_chronological_float_witness :
+    ((Iter.new (0.3 : Float) 333.3 9.999999999999998 1e-14 100 3 []).bind (collect 10 30)).map
+      (fun evs => (evs.map (·.kind), decide (evs.Pairwise (fun a b => Scalar.le a.time b.time = true)))) =
+    some ([.head, .tick, .repeatPt, .tick, .repeatPt, .tick, .lastTick, .tail], false) := by decide +kernel
 
 end Examples
 
